@@ -270,11 +270,18 @@ def slice_row(F, fn, t):
             en = {'to_be_bytes': 'BE', 'to_le_bytes': 'LE', 'to_ne_bytes': 'NE'}[n.rsplit('::', 1)[1]]
             src = strip(s[2][0])
             what = field_path(src)
+            w = INT_W.get(ty, '?')
             if src[0] == 'cast' or (src[0] == 'call' and 'serialized_size' in src[1]):
-                inner = strip(src[2]) if src[0] == 'cast' else src
+                # a length field: look through the whole chain of integer casts, remembering the narrowest type on the way --
+                # `(n as u16) as u32` writes four bytes but only keeps two of them (the field then lies for large values)
+                inner, narrowest = src, 8
+                while inner[0] == 'cast':
+                    narrowest = min(narrowest, INT_W.get(inner[3], 8) if len(inner) > 3 else 8)
+                    inner = strip(inner[2])
                 if inner[0] == 'call' and 'serialized_size' in inner[1]:
                     what = 'serialized_size(%s)' % field_path(inner[2][0])
-            w = INT_W.get(ty, '?')
+                    if isinstance(w, int) and narrowest < w:
+                        what += ' narrowed to %d bytes on the way' % narrowest
             return (what, w, '-' if w == 1 else en)
         if n.endswith('bytemuck::bytes_of'):
             return (field_path(s[2][0]), 'H', 'pod-native')
